@@ -367,6 +367,14 @@ func (c *Ctx) Eq(a, b *Term) *Term {
 			return c.Not(a)
 		}
 	}
+	if a.S.K == KBV && a.S.W <= 64 {
+		if b.IsConst() && isConstTree(a) {
+			return c.mapLeaves(a, func(k *Term) *Term { return c.Bool(k.Val == b.Val) })
+		}
+		if a.IsConst() && isConstTree(b) {
+			return c.mapLeaves(b, func(k *Term) *Term { return c.Bool(k.Val == a.Val) })
+		}
+	}
 	// eq(ite(c,k1,k2), k3) with constants
 	if b.IsConst() && a.Op == OIte && a.Args[1].IsConst() && a.Args[2].IsConst() {
 		t1 := a.Args[1].Val == b.Val
@@ -494,6 +502,14 @@ func (c *Ctx) BvBin(op Op, a, b *Term) *Term {
 			panic("bvbin op")
 		}
 		return c.Const(a.S, r)
+	}
+	if w <= 64 {
+		if b.IsConst() && isConstTree(a) {
+			return c.mapLeaves(a, func(k *Term) *Term { return c.BvBin(op, k, b) })
+		}
+		if a.IsConst() && isConstTree(b) {
+			return c.mapLeaves(b, func(k *Term) *Term { return c.BvBin(op, a, k) })
+		}
 	}
 	// identities
 	switch op {
@@ -691,6 +707,14 @@ func (c *Ctx) BvCmp(op Op, a, b *Term) *Term {
 	}
 	if a == b {
 		return c.Bool(op == OBvULe || op == OBvSLe)
+	}
+	if w <= 64 {
+		if b.IsConst() && isConstTree(a) {
+			return c.mapLeaves(a, func(k *Term) *Term { return c.BvCmp(op, k, b) })
+		}
+		if a.IsConst() && isConstTree(b) {
+			return c.mapLeaves(b, func(k *Term) *Term { return c.BvCmp(op, a, k) })
+		}
 	}
 	if w <= 64 {
 		// range-based folding for unsigned compares
@@ -897,8 +921,8 @@ func (c *Ctx) Extract(a *Term, hi, lo int) *Term {
 		}
 		return c.Concat(parts...)
 	case OIte:
-		if w <= 64 && a.Args[1].IsConst() && a.Args[2].IsConst() {
-			return c.Ite(a.Args[0], c.Extract(a.Args[1], hi, lo), c.Extract(a.Args[2], hi, lo))
+		if w <= 64 && isConstTree(a) {
+			return c.mapLeaves(a, func(k *Term) *Term { return c.Const(BV(w), k.Val>>uint(lo)) })
 		}
 	case OBvAnd, OBvOr, OBvXor:
 		// bitwise ops distribute over extract; only do it when an argument is constant (keeps terms small)
@@ -985,6 +1009,9 @@ func (c *Ctx) ZExt(a *Term, w int) *Term {
 	if a.Op == OZExt {
 		return c.ZExt(a.Args[0], w)
 	}
+	if w <= 64 && isConstTree(a) {
+		return c.mapLeaves(a, func(k *Term) *Term { return c.Const(BV(w), k.Val) })
+	}
 	return c.intern(&Term{Op: OZExt, S: BV(w), Args: []*Term{a}})
 }
 
@@ -1001,6 +1028,10 @@ func (c *Ctx) SExt(a *Term, w int) *Term {
 	if a.Op == OZExt {
 		// zero-extended value is non-negative
 		return c.ZExt(a.Args[0], w)
+	}
+	if w <= 64 && isConstTree(a) {
+		aw := a.S.W
+		return c.mapLeaves(a, func(k *Term) *Term { return c.Const(BV(w), uint64(sext64(k.Val, aw))) })
 	}
 	return c.intern(&Term{Op: OSExt, S: BV(w), Args: []*Term{a}})
 }
@@ -1425,4 +1456,36 @@ func (c *Ctx) orAsConcat(a, b *Term) *Term {
 		parts = append(parts, c.Const(BV(pos), 0))
 	}
 	return c.Concat(parts...)
+}
+
+
+// constTree reports whether t is a constant or an ite-tree with constant leaves (bounded size).
+func constTree(t *Term, budget *int) bool {
+	*budget--
+	if *budget < 0 {
+		return false
+	}
+	if t.Op == OConst {
+		return true
+	}
+	if t.Op == OIte {
+		return constTree(t.Args[1], budget) && constTree(t.Args[2], budget)
+	}
+	return false
+}
+
+func isConstTree(t *Term) bool {
+	if t.Op != OIte {
+		return false
+	}
+	b := 600
+	return constTree(t, &b)
+}
+
+// mapLeaves applies f to the constant leaves of an ite-tree.
+func (c *Ctx) mapLeaves(t *Term, f func(*Term) *Term) *Term {
+	if t.Op == OConst {
+		return f(t)
+	}
+	return c.Ite(t.Args[0], c.mapLeaves(t.Args[1], f), c.mapLeaves(t.Args[2], f))
 }
